@@ -12,6 +12,18 @@ use serde_json::json;
 fn slice_grammars(rng: &mut Rng) -> GCase {
     let ml = *rng.pick(&[3u32, 9, 10, 11, 12, 29, 30, 31, 32, 64]);
     let mn = rng.below(4);
+    if rng.chance(1, 7) {
+        // a lazy lexeme and a greedy lexeme that contains a slice regex alive in the SAME lexer state
+        let lazy = *rng.pick(&["/[a-z]*q/", "/[a-z ]*;/", "/.*x/", "/[^\"]*zz/", "/[a-z]{0,6}[0-9]/"]);
+        let follow = *rng.pick(&["\"!\"", "\"\\\"\"", "\"0\"", "\"q\""]);
+        let text = *rng.pick(&["/[^\"\\\\\\x00-\\x1F\\x7F]+/", "/[a-z]+/", "/[a-zA-Z0-9 ]+/", "/[^<>]+/", "/[^\"\\\\\\x00-\\x1F\\x7F]{1,10}/"]);
+        let body = match rng.below(3) {
+            0 => format!("start: head {follow} | text\n"),
+            1 => format!("start: \"<\" (head {follow} | text) \">\"\n"),
+            _ => format!("start: head {follow} text | text\n"),
+        };
+        return GCase::lark("sl_lazy_and_greedy", &format!("{body}head[lazy]: {lazy}\ntext: {text}\n")).tag("slice_family");
+    }
     match rng.below(14) {
         0 => GCase::json("sl_maxlen", &format!(r#"{{"type":"string","maxLength":{ml}}}"#)),
         1 => GCase::json("sl_minmax", &format!(r#"{{"type":"string","minLength":{mn},"maxLength":{ml}}}"#)),
